@@ -81,6 +81,25 @@ def probe_sessions(seed, names):
                     bad.append(f"coefficient sweep ETDRK{order}{k} at z={f64['sweep']['z'][zi]}: single {c32} vs double {c64} "
                                f"differ by {d:.2e} (> {COEF_TOL:g}): the contour passes too close to the removable singularity")
                 # the double-precision value against the exact phi-combination is the C02 check's business
+    # stiff propagators: finite in both sessions, never amplifying, and the same modulus in both sessions up to single rounding
+    for label, a in f32.get("stiff", {}).items():
+        b = f64.get("stiff", {}).get(label, {})
+        if "error" in a or "error" in b:
+            bad.append(f"stiff propagator {label}: construction failed ({a.get('error')} / {b.get('error')})")
+            continue
+        if not (a["finite"] and b["finite"]):
+            bad.append(f"stiff propagator {label}: non-finite exp(dt*lambda) (single {a['finite']}, double {b['finite']})")
+            continue
+        ma, mb = np.asarray(a["modulus"]), np.asarray(b["modulus"])
+        if float(np.max(mb)) > 1.0 + 1e-9 or float(np.max(ma)) > 1.0 + 1e-4:
+            bad.append(f"stiff propagator {label}: a mode with Re(lambda) <= 0 is amplified: max |exp(dt*lambda)| = {float(np.max(ma)):.6g} (single), {float(np.max(mb)):.12g} (double)")
+        elif float(np.max(np.abs(ma - mb))) > 1e-4:
+            j = int(np.argmax(np.abs(ma - mb)))
+            bad.append(f"stiff propagator {label}: |exp(dt*lambda)| of stored mode {j} is {ma[j]:.6g} in the single-precision session and {mb[j]:.12g} in the double-precision one")
+        if "Dispersion" in label or "Advection[" in label:   # (KdV carries a hyper-diffusion by default: not unitary)
+            if float(np.max(np.abs(mb - 1.0))) > 1e-9:
+                j = int(np.argmax(np.abs(mb - 1.0)))
+                bad.append(f"stiff propagator {label}: a purely imaginary symbol must give a unitary propagator; double-precision |exp(dt*lambda)| of stored mode {j} is {mb[j]:.15g}")
     # the double-precision session entered AFTER a single-precision one in the same process: same criteria
     sw = run_child("switch", seed, names)
     for name, r in sw.get("exact", {}).items():
@@ -125,6 +144,8 @@ def oracle(ctx, deep):
     ctx.count(("oracle_sessions", len(names)), True, n=len(names))
     for b in r["bad"]:
         key = b.split(":")[0]
+        if key.startswith("stiff propagator"):
+            key = "stiff-propagator " + key.split("propagator ")[1].split("[")[0]
         if key.startswith("coefficient sweep"):
             key = "coefficient-sweep " + key.split()[2].split("_")[0]
         fails.append({"key": f"C19:{key}", "what": b, "probe": "sessions", "args": {"seed": ctx.seed, "names": names}, "observed": r})
